@@ -35,11 +35,12 @@ class Capacity(O.Monitor):
     name = "capacity"
     P = "C06"
 
-    def __init__(self, spec):
+    def __init__(self, spec, overfull_ok=False):
         self.spec = spec
         self.caps = [spec_capacity(nd) for nd in spec["nodes"]]
         self.upper = [upper_capacity(nd) for nd in spec["nodes"]]
         self.syscap = B.num(spec.get("system_capacity", "inf"))
+        self.overfull_ok = overfull_ok       # re-routed (pre-empted) customers ignore queue capacities, as documented
 
     def start(self, Q):
         self.k = 0
@@ -52,7 +53,9 @@ class Capacity(O.Monitor):
         for i, nd in enumerate(Q.transitive_nodes):
             n = len(O.customers(nd))
             tot += n
-            if self.upper[i] is not None and n > self.upper[i]:
+            if self.upper[i] is not None and n > self.upper[i] and self.overfull_ok:
+                self.activity["overfull_nodes_seen"] = self.activity.get("overfull_nodes_seen", 0) + 1
+            elif self.upper[i] is not None and n > self.upper[i]:
                 rep("node-population-within-capacity", {"node": i + 1, "population": n, "capacity": self.upper[i]})
         if tot > self.syscap:
             rep("system-population-within-capacity", {"population": tot, "capacity": self.syscap})
